@@ -146,7 +146,7 @@ def run(rep: Report, tier: str) -> None:
     rep.check(unparse(loop.iter) == "enumerate(input_sheet.rows())" and unparse(loop.target) == "(i, row)", rd, OP, po.qualname, "row loop enumerates every row of the asset's sheet", f"the row loop is 'for {unparse(loop.target)} in {unparse(loop.iter)}'", loc(loop))
     exits = [n for n in ast.walk(loop) if isinstance(n, (ast.Break, ast.Continue, ast.Return))]
     for n in exits:
-        rep.violation(rd, OP, po.qualname, f"{type(n).__name__.lower()} inside the row loop", f"the row loop of parse_ods contains '{type(n).__name__.lower()}' under [{' and '.join(short(t, 50) for t, _ in _conds(n, loop))}]: rows after that point (or this row) are never examined — tables further down are silently dropped and structural faults there go unnoticed", loc(n))
+        rep.violation(rd, OP, po.qualname, f"{type(n).__name__.lower()} inside the row loop", f"the row loop of parse_ods contains '{type(n).__name__.lower()}' under [{' and '.join(short(t, 50) for t, _ in _conds(n, loop))}]: rows after that point (or this row) are never examined — tables further down are silently dropped and structural faults there go unnoticed", loc(n), definite=True)
     if not exits:
         rep.ok(rd, "row loop has no break / continue / return (only raise ends it early)")
     calls = [n for n in ast.walk(loop) if isinstance(n, ast.Call) and isinstance(n.func, ast.Name) and n.func.id == "_create_and_process_transaction"]
@@ -355,7 +355,7 @@ def check_handler_paths(rep: Report, rd: str) -> None:
         adds = [e for e in p.events if e[0] == "add"]
         arts = [e for e in p.events if e[0] == "artificial"]
         ok = len(adds) == 1 and len(arts) <= 1 and p.exit == "fall"
-        rep.check(ok, rd, OP, h.qualname, f"handler path ({'split' if arts else 'plain'}) adds exactly one transaction" + ("" if ok else f" [{len(adds)} adds, exit {p.exit}]"), f"a path of _create_and_process_transaction (exit '{p.exit}' at {loc(p.exit_node) if p.exit_node else 'end'}) adds {len(adds)} transaction(s) to the sets and {len(arts)} to the artificial list; every parsed row must become exactly one transaction (rows must never be skipped, e.g. as 'duplicates')", loc(h.node))
+        rep.check(ok, rd, OP, h.qualname, f"handler path ({'split' if arts else 'plain'}) adds exactly one transaction" + ("" if ok else f" [{len(adds)} adds, exit {p.exit}]"), f"a path of _create_and_process_transaction (exit '{p.exit}' at {loc(p.exit_node) if p.exit_node else 'end'}) adds {len(adds)} transaction(s) to the sets and {len(arts)} to the artificial list; every parsed row must become exactly one transaction (rows must never be skipped, e.g. as 'duplicates')", loc(h.node), definite=p.exit != "fall" and not adds)  # an explicit return / continue that leaves without adding is a located construct
         if adds and not arts:
             rep.check(adds[0][1] == "unfiltered_transaction_sets[current_table_type]", rd, OP, h.qualname, "plain path adds to the set of the current table", f"the transaction is added to {adds[0][1]}; expected unfiltered_transaction_sets[current_table_type]", loc(h.node))
     first = h.body[0] if h.body else None
